@@ -1,0 +1,32 @@
+//go:build verif
+// +build verif
+
+package verifhook
+
+// Installed by the simulation harness; nil means "do nothing".
+var (
+	YieldFn func(site string, keys ...interface{})
+	PollFn  func(site string)
+	NameFn  func(kind string, obj interface{})
+)
+
+// Yield marks a point at which a simulator may switch to another task.
+func Yield(site string, keys ...interface{}) {
+	if f := YieldFn; f != nil {
+		f(site, keys...)
+	}
+}
+
+// Poll marks the idle branch of a busy loop.
+func Poll(site string) {
+	if f := PollFn; f != nil {
+		f(site)
+	}
+}
+
+// Name gives obj a stable identity usable as a key of Yield.
+func Name(kind string, obj interface{}) {
+	if f := NameFn; f != nil {
+		f(kind, obj)
+	}
+}
